@@ -59,15 +59,13 @@ package pogreb
 //@   flag lossless
 //@   modifies dl.curSeg, dl.segments, dl.maxSequenceID, any(segmentMeta).Full, any(segmentMeta).PutRecords, any(segmentMeta).DeleteRecords, any(segmentMeta).DeletedBytes, any(file).size, dirFid[dl.opts.FileSystem], fLen, fDur, fData, hOpen, hPos, fidOf, fidName
 
-// DB.put passes a function literal to index.put, which is not under contract yet: its contract is ASSUMED
-// (listed as trusted): it changes only the index and the deletion counters of segment metas.
+// DB.put hands index.put a function literal (contract in verif_contracts_put.go)
 //@ func (db *DB) put(sl slot, key []byte) (err error) [C01,C03,C06,C16]
-//@   trusted closure passed to index.put: body not verified
-//@   requires inv: dbInv(db)
+//@   requires inv: db == theDB() && key == theKey() && dbFull(db) && idxInLog(db) && idxFreeOK(db.index)
 //@   requires slot: slotInSeg(db.datalog, sl)
-//@   ensures inv: dbInv(db)
+//@   ensures inv: err == nil ==> dbInv(db)
 //@   ensures log: segmentsUntouched(db.datalog)
-//@   modifies any(index).freeBucketOffs, any(index).level, any(index).numKeys, any(index).numBuckets, any(index).splitBucketIdx, any(segmentMeta).DeletedKeys, any(segmentMeta).DeletedBytes, any(file).size, fLen, fDur, fData
+//@   modifies any(index).freeBucketOffs, any(index).level, any(index).numKeys, any(index).numBuckets, any(index).splitBucketIdx, any(segmentMeta).DeletedKeys, any(segmentMeta).DeletedBytes, any(file).size, any(slotWriter).bucket, any(slotWriter).slotIdx, any(slotWriter).prevBuckets, any(bucketHandle).bucket, elems(*bucketHandle), fLen, fDur, fData
 
 //@ func (db *DB) sync() (err error) [C06,C15]
 //@   requires inv: dbInv(db)
@@ -85,8 +83,8 @@ package pogreb
 //@   ensures unlocked: lockSt[fieldaddr(db, mu)] == 0
 //@   modifies fDur, lockSt
 
-//@ func (db *DB) Put(key []byte, value []byte) (err error) [C03,C06,C16]
-//@   requires inv: dbInv(db)
+//@ func (db *DB) Put(key []byte, value []byte) (err error) [C01,C03,C06,C16]
+//@   requires inv: db == theDB() && key == theKey() && dbFull(db) && idxInLog(db) && idxFreeOK(db.index)
 //@   requires unlocked: lockSt[fieldaddr(db, mu)] == 0
 //@   ensures [C16] keylimit: len(key) > 65535 ==> err == errKeyTooLarge
 //@   ensures [C16] valuelimit: len(key) <= 65535 && len(value) > 536870912 ==> err == errValueTooLarge
